@@ -77,7 +77,17 @@ def _mk_time():
     return m
 
 
-class vdatetime(_real_datetime.datetime):
+class _VDatetimeMeta(type):
+    """isinstance / issubclass against the shim class accept every real datetime (the shim only replaces the clock access)"""
+
+    def __instancecheck__(cls, obj):
+        return isinstance(obj, _real_datetime.datetime)
+
+    def __subclasscheck__(cls, sub):
+        return issubclass(sub, _real_datetime.datetime)
+
+
+class vdatetime(_real_datetime.datetime, metaclass=_VDatetimeMeta):
     """datetime whose now()/utcnow() read the virtual clock."""
 
     @classmethod
@@ -207,6 +217,7 @@ def _generic_map(fut):
     import concurrent.futures as cf
     m = {
         id(_real_threading): SHIM_THREADING, id(_real_queue): SHIM_QUEUE, id(_real_time): SHIM_TIME,
+        id(_real_datetime): SHIM_DATETIME, id(_real_datetime.datetime): vdatetime,
         id(_real_threading.Lock): ds.Lock, id(_real_threading.RLock): ds.RLock, id(_real_threading.Event): ds.Event,
         id(_real_threading.Condition): ds.Condition, id(_real_threading.Semaphore): ds.Semaphore,
         id(_real_threading.BoundedSemaphore): ds.BoundedSemaphore, id(_real_threading.Thread): ds.Thread,
